@@ -146,7 +146,7 @@ def random_net(rng: random.Random, idx: int) -> Dict[str, Any]:
         if kind < 0.22 and bi > 0:                     # depthwise-separable block
             dws = _conv(rng, dws=True, out=ch, **common())
             dws["relu"] = rng.random() < 0.7
-            if special < 0.04:                         # dilated depthwise conv (F30 on MATCH)
+            if special < 0.25:                         # dilated depthwise conv (F30 on MATCH)
                 dws.update(k=[3, 1], d=[2, 1], p=[2, 0])
             layers.append(dws)
             layers.append(_conv(rng, k=[1, 1], p=[0, 0], **common()))
@@ -298,7 +298,7 @@ def run(tier: str, seed: int, replay=None) -> int:
                                 R, workers=W)
 
     # ---- 2. spec -> code ----------------------------------------------------------------------------------
-    tiny = _tiny_scenarios(layer_states, rng, all_combos=not quick, n_states=5000 if quick else 12000,
+    tiny = _tiny_scenarios(layer_states, rng, all_combos=not quick, n_states=5000 if quick else 0,
                            n_predict_mau=40 if quick else 400)
     approx = _approx_scenarios(approx_states, rng, n_predict=40 if quick else 400)
     t0 = time.time()
@@ -315,7 +315,7 @@ def run(tier: str, seed: int, replay=None) -> int:
                nontrivial=lambda s: any(abs(b) >= 2 ** 20 for b in s["bs"]), workers=W, chunk=6000)
 
     # ---- 3. code -> spec: networks ---------------------------------------------------------------------------
-    nets = net_scenarios(rng, 80 if quick else 1200)
+    nets = net_scenarios(rng, 80 if quick else 2500)
     t0 = time.time()
     net_tr = intnet.run_scenarios(nets)
     bad_stage = [t for t in net_tr if t["stage"] in ("mps", "match")]
